@@ -13,6 +13,7 @@ import (
 	gosync "sync"
 	"testing"
 	"testing/synctest"
+	"time"
 
 	pb "github.com/arr-ai/proto"
 	"github.com/sirupsen/logrus"
@@ -614,19 +615,15 @@ func (s *gsim) checkStreams() {
 
 func grpcsimRun(c *vrun.Ctx) {
 	s := &gsim{c: c, t: c.Tape, faults: c.Knob("faults", "on") == "on"}
-	func() {
-		defer func() {
-			if r := recover(); r != nil {
-				msg := fmt.Sprint(r)
-				if strings.Contains(msg, "deadlock") {
-					c.Probe("bubble-ended-with-blocked-goroutines")
-					return
-				}
-				c.Violate("no-crash", "C17/grpc-panic", "panic: %s", msg)
-			}
-		}()
-		synctest.Test(c.T, func(t *testing.T) { s.body() })
-	}()
+	msg, stuck := vrun.Bubble(c.T, 25*time.Second, s.body)
+	switch {
+	case stuck:
+		c.Violate("progress", "C17/grpc-wedge/never-quiescent", "the simulation never became quiescent: a goroutine of the server is blocked for ever on something that is not a channel (a mutex)")
+	case strings.Contains(msg, "deadlock"):
+		c.Probe("bubble-ended-with-blocked-goroutines")
+	case msg != "":
+		c.Violate("no-crash", "C17/grpc-panic", "panic: %s", msg)
+	}
 	if !c.Failed() {
 		s.checkStreams()
 	}
